@@ -31,10 +31,16 @@ def reduced(g) -> str:
 
 
 def rec_parse(form, groups, text) -> dict:
-    from han.obis import to_obis_tupple
+    from han.obis import Obis, to_obis_tupple
     raised, got = "", [0] * 6
     try:
         got = _g(to_obis_tupple(text))
+        # the other public ways into the same groups must agree: the class method, and its accessors
+        o = Obis.from_string(text)
+        for alt in (_g(o.as_tupple()), _g((o.a, o.b, o.c, o.d, o.e, o.f)), _g(Obis.from_string(text).as_tupple())):
+            if alt != got:
+                got = alt       # the deviating answer is the one that gets judged
+                break
     except Exception as ex:  # noqa: BLE001
         raised = type(ex).__name__
     return {"id": stable_id("op", form, groups, text), "canary": "", "kind": "parse", "form": form, "groups": groups,
@@ -75,8 +81,22 @@ def rec_eq(g1, g2) -> dict:
         cde = a.to_group_cdr_str()
     except Exception:  # noqa: BLE001
         cde = "?"
+    # equality asked in other states of the two objects: after one of them was hashed / printed / used in a container, and the other way round
+    try:
+        fcde = _g(a.filter_group_cde().as_tupple())
+    except Exception:  # noqa: BLE001
+        fcde = [0] * 6
+    eqs = []
+    for prep in (lambda c, d: hash(c), lambda c, d: hash(d), lambda c, d: (str(c), repr(d)), lambda c, d: (c.to_reduced_str(), d.as_tupple()),
+                 lambda c, d: {c: 1}, lambda c, d: (c == d, hash(c))):
+        c, d = Obis(_tup(g1)), Obis(_tup(g2))
+        try:
+            prep(c, d)
+            eqs += [bool(c == d), bool(d == c), not bool(c != d), d in [c], d in {c}]
+        except Exception:  # noqa: BLE001
+            eqs.append(g1 != g2)          # an exception is never the right answer: recorded as the wrong one
     return {"id": stable_id("oe", g1, g2), "canary": "", "kind": "eq", "g1": g1, "g2": g2, "eq": bool(a == b), "hash_eq": hash(a) == hash(b),
-            "eq_str": eq_str, "str_ok": str_ok, "cde": list(cde.encode())}
+            "eq_str": eq_str, "str_ok": str_ok, "cde": list(cde.encode()), "eqs": eqs, "fcde": fcde}
 
 
 def rand_groups(rng: random.Random):
@@ -101,6 +121,13 @@ def run_c20(chk: Check) -> int:
         if all(x != NONE for x in g):
             recs.append(rec_parse("six", g, ".".join(str(x) for x in g)))
         recs.append(rec_roundtrip(g))
+    # every C.D pair 0..99 x 0..99 in its shortest form and with the usual prefixes (codes a registry or a cache may know, and their neighbours)
+    for c in range(100):
+        for d in (range(100) if not quick else (0, 1, 2, 7, 8, 9, 10, 14, 96, 99)):
+            for g in ([NONE, NONE, c, d, NONE, NONE], [NONE, NONE, c, d, 0, NONE], [1, 0, c, d, 0, NONE], [NONE, 0, c, d, NONE, 255]):
+                recs.append(rec_parse("reduced", g, reduced(g)))
+            if c % 10 == 1:
+                recs.append(rec_eq([NONE, NONE, c, d, NONE, NONE], [NONE, NONE, c, d, 0, NONE]))
     # all presence patterns x boundary values for the round trip
     for pat in range(16):
         for v in (0, 1, 255):
@@ -163,6 +190,8 @@ def run_c20(chk: Check) -> int:
         if r["canary"]:
             continue
         chk.count(r["id"])
+        if v["ok"] and v.get("drift"):
+            chk.drift(f"Obis({r['g1']}).filter_group_cde() = {r['fcde']} (growth clause {v['drift']}, not part of C20)")
         if not v["ok"]:
             if v["clause"] == "plan":
                 from .tlc import MachineryError
